@@ -505,6 +505,9 @@ func genKV(r *vfutil.Rand, i int, dbs int) KVSpec {
 	if r.Chance(1, 6) {
 		key = string(r.Bytes(r.Range(1, 5)))
 	}
+	if r.Chance(1, 30) {
+		key = "" // the empty string is a valid Redis key
+	}
 	kv := KVSpec{Key: vfutil.HexS(key), Type: vfutil.Pick(r, []int{0, 0, 1, 2, 3, 4, 4, 4}), Exp: vfutil.Pick(r, []int{0, 0, 1, 2})}
 	item := func() string {
 		if r.Chance(1, 5) {
